@@ -546,6 +546,11 @@ impl<TStorage: ?Sized> Array<TStorage> {
         &mut self,
         dimension_names: Option<Vec<DimensionName>>,
     ) -> &mut Self {
+        // Keep the metadata (which is what gets stored) in sync, like `set_shape` does.
+        // Zarr V2 metadata has no dimension names.
+        if let ArrayMetadata::V3(metadata) = &mut self.metadata {
+            metadata.dimension_names.clone_from(&dimension_names);
+        }
         self.dimension_names = dimension_names;
         self
     }
